@@ -85,7 +85,12 @@ pub fn enforce_constraints<E: FieldElement<BaseField = Felt>>(
     constraint_offset += bitwise::get_transition_constraint_count();
 
     // memory transition constraints
-    memory::enforce_constraints(frame, &mut result[constraint_offset..], frame.memory_flag(false));
+    memory::enforce_constraints_with_last_row(
+        frame,
+        &mut result[constraint_offset..],
+        frame.memory_flag(false),
+        frame.memory_flag(true),
+    );
 }
 
 // TRANSITION CONSTRAINT HELPERS
@@ -169,7 +174,10 @@ impl<E: FieldElement> EvaluationFrameExt<E> for &EvaluationFrame<E> {
 
     #[inline(always)]
     fn bitwise_flag(&self) -> E {
-        self.s(0) * binary_not(self.s_next(1))
+        // the selectors of the current row: the constraints which relate a row to the next one are
+        // switched off in the last row of every 8-row cycle by the periodic column k1, so the last
+        // row of the bitwise trace must not be excluded (its output would be unconstrained).
+        self.s(0) * binary_not(self.s(1))
     }
 
     #[inline(always)]
